@@ -166,6 +166,10 @@ DEPS_EXPECT = {
     'after_zap_deps1': [['c', 's2'], ['m', 's1']],      # deps reports every recorded edge, marked for deletion or not
     'after_redeclare_s1': [['c', 's2'], ['m', 's1']],
     'after_zap_deps2': [['m', 's1']],                   # edges not re-declared are gone
+    # a later build declares the same pair with the other mode (redo-ifcreate s1 where it said redo-ifchange s1 before)
+    'redeclared_as_created': [['c', 's1']],
+    'created_after_zap_deps2': [['c', 's1']],           # the declaration of THIS build survives zap_deps2
+    'modified_again_after_zap_deps2': [['m', 's1']],
 }
 
 
@@ -184,7 +188,7 @@ def _deps_failures():
             continue
         exp = DEPS_EXPECT.get(r['step'])
         if exp is not None and sorted(r['rows']) != sorted(exp):
-            out.append(dict(input='target t: add_dep(Modified s1), add_dep(Created s2), zap_deps1, add_dep(Modified s1), zap_deps2; step=' + r['step'],
+            out.append(dict(input='target t: add_dep(Modified s1), add_dep(Created s2), zap_deps1, add_dep(Modified s1), zap_deps2; zap_deps1, add_dep(Created s1), zap_deps2; zap_deps1, add_dep(Modified s1), zap_deps2; step=' + r['step'],
                             observed=r['rows'], expected=exp,
                             clause='File::deps reports exactly the recorded edges of the target (trusted spec in prelude/state_file_trusted.rs)'))
     return out
@@ -745,7 +749,8 @@ def conformance(prop, unit_names, pins_changed, labels_props):
         for h in (r[0] if r else []):
             out.append(dict(oid='corpus/%s/%s' % (h['input'].split('/')[1], 'history'), msg='a recorded history of this property fails on the real binaries (bounded probe corpus, %d histories)' % r[1],
                             where=REPO, site=None, text=h['clause'], rendered=json.dumps(h, indent=1), inputs=[h['input']], fn='corpus', label='history', props=[prop]))
-    if any(p.endswith('::deps') or p.endswith('::zap_deps1') or p.endswith('::zap_deps2') or p.endswith('::add_dep') for p in pins_changed):
+    if any(p.endswith('::deps') or p.endswith('::zap_deps1') or p.endswith('::zap_deps2') or p.endswith('::add_dep') for p in pins_changed) \
+            or ('gluebins' in unit_names and prop in ('C02', 'C14', 'C10', 'C01')):
         f = _deps_failures()
         if f:
             out.append(dict(oid='trusted/File::deps/deps_reports_every_recorded_edge', msg='trusted specification of a hash-pinned body fails on the real code for a concrete input (probe deps)',
